@@ -31,6 +31,26 @@ type specCtx struct {
 
 type specErr struct{ msg string }
 
+// declaredSomewhere: does the unresolved name in msg denote a local variable declared anywhere in the
+// function under contract (so that it is merely out of scope on this path, not a stale name)?
+func (c *specCtx) declaredSomewhere(msg string) bool {
+	i := strings.Index(msg, "\"")
+	j := strings.LastIndex(msg, "\"")
+	if i < 0 || j <= i || c.fr.top == nil || c.fr.top.fn == nil || c.fr.top.fn.Decl == nil {
+		return false
+	}
+	name := msg[i+1 : j]
+	d := c.fr.top.fn.Decl
+	for id, obj := range c.fr.top.fn.Pkg.TypesInfo.Defs {
+		if id.Name == name && obj != nil && d.Pos() <= id.Pos() && id.Pos() < d.End() {
+			if _, ok := obj.(*types.Var); ok {
+				return true
+			}
+		}
+	}
+	return false
+}
+
 func (c *specCtx) fail(format string, a ...interface{}) {
 	panic(specErr{fmt.Sprintf(format, a...)})
 }
@@ -521,7 +541,23 @@ func (c *specCtx) binary(x *SExpr) *SVal {
 	case "||":
 		return &SVal{T: Or(c.eval(x.Args[0]).T, c.eval(x.Args[1]).T), Ty: boolT}
 	case "==>":
-		return &SVal{T: Implies(c.eval(x.Args[0]).T, c.eval(x.Args[1]).T), Ty: boolT}
+		a := c.eval(x.Args[0]).T
+		// a consequent naming a local that is not (yet) declared on this path can only hold vacuously:
+		// the antecedent must be false there
+		var bT *Term
+		func() {
+			defer func() {
+				if r := recover(); r != nil {
+					if se, ok := r.(specErr); ok && strings.Contains(se.msg, "unresolved name") && c.fr != nil && !c.pure && c.declaredSomewhere(se.msg) {
+						bT = False
+						return
+					}
+					panic(r)
+				}
+			}()
+			bT = c.eval(x.Args[1]).T
+		}()
+		return &SVal{T: Implies(a, bT), Ty: boolT}
 	case "<==>":
 		return &SVal{T: Iff(c.eval(x.Args[0]).T, c.eval(x.Args[1]).T), Ty: boolT}
 	case "in":
